@@ -39,4 +39,8 @@ CHECKS["C16"] = dict(engine="symx + symtext",
     technique="symbolic execution of the real XYZ/SDF writers and readers on symbolic coordinates, counts and bond indices; field lengths decided per sign/digit-count class (path forking pruned by z3 LRA/LIA)",
     text="Molecule.to_sdf_string -> parse_sdf_contents -> Molecule.from_sdf_dict and to_xyz_string -> parse_xyz_string run on symbolic coordinates; every feasible sign/digit-count class of the coordinate triple (729 for SDF's range, 1000-2744 for XYZ) is explored and on each the readers must recover each value from its own whole field in the V2000 columns; counts and bond lines for all counts/indices 0..999; 1-3 records with and without bond blocks.",
     note="CPython's formatting is modelled (length and rounding of '{:W.Pf}'/'{:Wd}'), validated against CPython at run start; bond perception is numeric and not encoded; 1-2 atoms per record (lines are formatted independently).")
+CHECKS["C14"] = dict(engine="AST extraction + z3 bounded model checking",
+    technique="transition system (caches, state writes, invalidations, call graph) extracted from crystal.py's AST each run; z3 decides the one-step inductive invariant and searches histories up to length 4/6; counterexample and witness histories replayed on the real code",
+    text="Bounded model check of the memoisation protocol of class Crystal: state = version of (cell, space group, asymmetric unit) and, per hasattr-guarded cache and the stored CIF dictionary, the version it was computed at. z3 shows that no operation sequence (up to the bound, and by the inductive step for any length) ends in a query answered from data older than the state, or returns the history; histories are executed on r3c_example.cif and compared with freshly constructed crystals.",
+    note="The abstraction is syntactic (hasattr/getattr/setattr/__dict__.pop idioms, assignments to self.unit_cell/space_group/asymmetric_unit); a model-level counterexample that the real code does not exhibit is reported as inconclusive, not as a violation; one test structure.")
 NOT_APPLICABLE = [{"property_id": p, "reason": "check not yet implemented in this round (planned, see DESIGN.md section 3)"} for p in ALL if p not in CHECKS]
